@@ -245,6 +245,16 @@ func (f *Frame) callHasEffects(ct *callTarget, call *ssa.CallCommon) bool {
 
 func (f *Frame) dispatch(ins ssa.Instruction, call *ssa.CallCommon, ct *callTarget, st *State, resType types.Type) Value {
 	name := ct.display
+	if f.root.initMode && ct.fn != nil && ct.fn.Name() == "init" && ct.fn.Parent() == nil {
+		return &Tuple{} // initialiser of an imported package: not part of this package's globals
+	}
+	if ct.fn == nil && !ct.invoke {
+		if t, ok := f.get(call.Value).(*Term); ok {
+			if v := f.funcValueCall(ins, call, ct, t, st, resType); v != nil {
+				return v
+			}
+		}
+	}
 	// 1. Go-coded library models
 	if ct.fn != nil {
 		if m, ok := libModels[libKey(ct.fn)]; ok {
@@ -1103,6 +1113,12 @@ func (f *Frame) havocPointees(st *State, ct *callTarget, call *ssa.CallCommon) {
 		return
 	}
 	external := ct.fn == nil || !isRepoFn(ct.fn)
+	if call.IsInvoke() && len(f.eng.implementers(call)) > 0 {
+		external = false
+	}
+	if ct.fn == nil && !call.IsInvoke() && len(f.eng.funcValueCandidates(call.Signature())) > 0 {
+		external = false
+	}
 	for i, a := range ct.args {
 		t, ok := a.(*Term)
 		if !ok {
@@ -1200,5 +1216,62 @@ func filterStringsModel(f *Frame, ins ssa.Instruction, call *ssa.CallCommon, ct 
 		return res
 	}
 	f.root.hyps = append(f.root.hyps, tImp(st.pc, mkQuant("forall", []BVar{bx}, tEq(containsTerm(res, x), tAnd(containsTerm(heap, x), pred)))))
+	return res
+}
+
+// funcValueCall: call through a function value that is not a known closure: closed-world case split over the named
+// repo functions of that signature whose address is taken somewhere.
+func (f *Frame) funcValueCall(ins ssa.Instruction, call *ssa.CallCommon, ct *callTarget, callee *Term, st *State, resType types.Type) Value {
+	cands := f.eng.funcValueCandidates(call.Signature())
+	if len(cands) == 0 || len(cands) > 8 {
+		return nil
+	}
+	f.root.notes[fmt.Sprintf("closed world: call through a function value dispatches over the %d address-taken repo functions of that signature", len(cands))] = true
+	var edges []inEdge
+	var vals []Value
+	var conds []*Term
+	for _, c := range cands {
+		ref := uf("fnref$"+sanitize(shortName(c)), sortInt)
+		f.addHyp(tTrue(), tGt(ref, tInt(0)))
+		cond := tEq(callee, ref)
+		conds = append(conds, cond)
+		sub := st.clone()
+		sub.pc = tAnd(st.pc, cond)
+		nct := *ct
+		nct.fn = c
+		nct.display = shortName(c)
+		v := f.dispatch(ins, call, &nct, sub, resType)
+		edges = append(edges, inEdge{sub, sub.pc})
+		vals = append(vals, v)
+	}
+	// distinct function references
+	for i := range cands {
+		for j := i + 1; j < len(cands); j++ {
+			f.addHyp(tTrue(), tNot(tEq(uf("fnref$"+sanitize(shortName(cands[i])), sortInt), uf("fnref$"+sanitize(shortName(cands[j])), sortInt))))
+		}
+	}
+	f.safe(st, "nilfunc", tNot(tEq(callee, tInt(0))), ins.Pos(), "call of a nil function value")
+	f.addHyp(st.pc, tOr(conds...))
+	merged := mergeStates(edges)
+	// merge results
+	var res Value
+	if t0, ok := vals[0].(*Term); ok {
+		r := t0
+		for i := len(vals) - 1; i >= 1; i-- {
+			if ti, ok := vals[i].(*Term); ok {
+				r = tIte(conds[i], ti, r)
+			}
+		}
+		_ = t0
+		// rebuild properly: nested ite from the last candidate
+		r = vals[len(vals)-1].(*Term)
+		for i := len(vals) - 2; i >= 0; i-- {
+			r = tIte(conds[i], vals[i].(*Term), r)
+		}
+		res = r
+	} else {
+		res = vals[0]
+	}
+	*st = *merged
 	return res
 }
